@@ -257,7 +257,12 @@ def sweep_nf(ctx, chk, rule, qual, fields, kernel_meth, domain_is_param):
             chk.violation(rule, where, "the convergence loop compares the change with `%s`, not with the solver's threshold" % show(c[2]),
                           expected="while <change> > self.threshold", found=src(W.node.test), construct="%s loop test" % f.short)
         else:
-            chk.undecided(rule, where, "convergence loop test `%s` not recognised" % show(c))
+            sticky = _sticky_watch_list(W.node)
+            if sticky:
+                chk.violation(rule, where, sticky, expected="the loop runs until the largest change of the LAST sweep is within the threshold", found=src(W.node.test),
+                              construct="%s sticky convergence marks" % f.short)
+            else:
+                chk.undecided(rule, where, "convergence loop test `%s` not recognised" % show(c))
         return None
     if W.has_break or W.has_return:
         chk.violation(rule, where, "the convergence loop has a second exit (break/return inside the loop)",
@@ -311,6 +316,28 @@ def sweep_nf(ctx, chk, rule, qual, fields, kernel_meth, domain_is_param):
                       expected="every state of the domain is updated in every sweep", found=norm_stmt(F.node), construct="%s sweep partial" % f.short)
         return None
     return dict(f=f, sx=sx, W=W, F=F, fold=fo, where=fwhere, dvar=dvar)
+
+
+def _sticky_watch_list(wnode):
+    """`while watched:` where the body only ever REMOVES entries from `watched` (a quantity / state is taken off the first time
+    its change is within the threshold): being within the threshold once does not mean staying there - the quantities feed
+    each other - so the loop can end while a quantity that was taken off is moving again."""
+    if not isinstance(wnode, ast.While):
+        return None
+    t = wnode.test
+    name = t.id if isinstance(t, ast.Name) else (t.args[0].id if isinstance(t, ast.Call) and call_name(t) == "len" and t.args and isinstance(t.args[0], ast.Name) else None)
+    if name is None:
+        return None
+    removes, adds = [], []
+    for n in ast.walk(wnode):
+        if isinstance(n, ast.Call) and isinstance(n.func, ast.Attribute) and isinstance(n.func.value, ast.Name) and n.func.value.id == name:
+            (removes if n.func.attr in ("remove", "discard", "pop", "clear") else adds if n.func.attr in ("append", "add", "extend", "update", "insert") else []).append(n)
+        if isinstance(n, ast.Assign) and any(isinstance(x, ast.Name) and x.id == name for x in n.targets):
+            adds.append(n)
+    if removes and not adds:
+        return ("the loop runs `while %s` and only ever takes entries off `%s` (`%s`): an entry that was within the threshold once is never watched again, "
+                "so the iteration can stop while that quantity has started to move again" % (name, name, src(removes[0])))
+    return None
 
 
 def _worklist_sweep_flaw(F):
